@@ -100,6 +100,7 @@ type Sink struct {
 	stopped   bool   // fail-stop reached
 	fired     string // fault kind that actually fired ("" if none)
 	shortNil  int    // number of contract-breaking short writes without error
+	aux       int    // calls of optional methods of the richer destinations (W1f, W1s, W1b)
 	// reach probes
 	failOnFinalFlush bool // set by the stack wrapper: first failure happened inside the final Flush
 	failBeyond4096   bool
@@ -212,6 +213,7 @@ func (s *Sink) Write(p []byte) (int, error) {
 // ---- writer stacks ---------------------------------------------------------------------
 
 // Stack names: "W1" sink as plain io.Writer (goldmark wraps it in its own bufio.Writer);
+// "W1f"/"W1s"/"W1b" the same with a richer method set (see flushSink, stringSink, bufferSink);
 // "W2:<size>" caller-supplied bufio.Writer of that size; "W3" harness unbuffered BufWriter
 // with bufio's sticky-error contract: every single renderer write reaches the sink.
 
@@ -281,12 +283,62 @@ func (b yieldingBuf) WriteRune(r rune) (int, error) {
 }
 func (b yieldingBuf) Flush() error { b.y.yield(siteBufW); return b.Writer.Flush() }
 
+// Destinations that are not a BufWriter but have a richer method set than io.Writer, as real
+// ones do (stacks W1f, W1s, W1b). Code that looks for optional methods on the destination
+// (Flush, WriteString, a bytes.Buffer-like set) takes another path for them; every method
+// that writes goes through the sink's fault plan as one sink call.
+
+// flushSink: Write + Flush/Sync/Close that report nothing (a gzip.Writer, a tabwriter, an
+// *os.File): a failed Write is reported by Write only.
+type flushSink struct{ s *Sink }
+
+func (f *flushSink) Write(p []byte) (int, error) { return f.s.Write(p) }
+func (f *flushSink) Flush() error                { f.s.aux++; return nil }
+func (f *flushSink) Sync() error                 { f.s.aux++; return nil }
+func (f *flushSink) Close() error                { f.s.aux++; return nil }
+
+// stringSink: Write + WriteString (io.StringWriter), like *os.File or a strings.Builder wrapper.
+type stringSink struct{ s *Sink }
+
+func (f *stringSink) Write(p []byte) (int, error)       { return f.s.Write(p) }
+func (f *stringSink) WriteString(p string) (int, error) { f.s.aux++; return f.s.Write([]byte(p)) }
+
+// bufferSink: the writing side of bytes.Buffer's method set (a size-limited or quota-checking
+// buffer that embeds bytes.Buffer looks like this), without Flush/Buffered/Available, so it
+// is not a util.BufWriter.
+type bufferSink struct{ s *Sink }
+
+func (f *bufferSink) Write(p []byte) (int, error)       { return f.s.Write(p) }
+func (f *bufferSink) WriteString(p string) (int, error) { f.s.aux++; return f.s.Write([]byte(p)) }
+func (f *bufferSink) WriteByte(c byte) error {
+	f.s.aux++
+	_, err := f.s.Write([]byte{c})
+	return err
+}
+func (f *bufferSink) WriteRune(r rune) (int, error) {
+	f.s.aux++
+	var b [utf8.UTFMax]byte
+	n := utf8.EncodeRune(b[:], r)
+	return f.s.Write(b[:n])
+}
+func (f *bufferSink) Len() int       { return len(f.s.acc) }
+func (f *bufferSink) Cap() int       { return cap(f.s.acc) }
+func (f *bufferSink) Grow(n int)     { f.s.aux++ }
+func (f *bufferSink) Bytes() []byte  { return f.s.acc }
+func (f *bufferSink) String() string { return string(f.s.acc) }
+
 // mkStack returns the io.Writer to hand to goldmark for the named stack.
 func mkStack(name string, s *Sink, y *yielder) io.Writer {
 	s.y = y
 	switch {
 	case name == "W1":
 		return s
+	case name == "W1f":
+		return &flushSink{s}
+	case name == "W1s":
+		return &stringSink{s}
+	case name == "W1b":
+		return &bufferSink{s}
 	case name == "W3":
 		return &unbuf{s: s, y: y}
 	case len(name) > 3 && name[:3] == "W2:":
@@ -309,6 +361,9 @@ var w2Sizes = []int{16, 17, 64, 4096, 65536}
 func genStack(r *Rng) string {
 	switch r.Intn(3) {
 	case 0:
+		if r.Split("rich-destination").Chance(1, 4) {
+			return pick(r.Split("rich-destination-kind"), []string{"W1f", "W1s", "W1b"})
+		}
 		return "W1"
 	case 1:
 		return fmt.Sprintf("W2:%d", pick(r, w2Sizes))
